@@ -995,6 +995,21 @@ func (e *SpecEnv) evalCall(x *SX) (*SV, error) {
 				conj = append(conj, Eq(Select(sc, Add(sls[2].Off, IntC(int64(i)))), Select(mac, IntC(int64(i)))))
 			}
 			return &SV{V: And(conj...), T: types.Typ[types.Bool]}, nil
+		case "held", "rheld":
+			// held(x.mu): the mutex is write-locked by the current goroutine; rheld: read- or write-locked
+			pl, _, err := e.evalLoc(args[0])
+			if err != nil {
+				return nil, err
+			}
+			if pl.Kind != PHeap || pl.Base == nil {
+				return nil, fmt.Errorf("held() needs a mutex field of a heap object")
+			}
+			id := pl.Key + "@" + termKey(pl.Base)
+			h := e.st.lockState("w:" + id)
+			if fn.Name == "rheld" {
+				h = Or(h, e.st.lockState("r:"+id))
+			}
+			return &SV{V: h, T: types.Typ[types.Bool]}, nil
 		case "sentTotal":
 			// sentTotal(): number of values placed on any channel so far (ghost)
 			ki := e.vc.reg.get("ghost:sentTotal", 0, IntSort, nil)
